@@ -555,7 +555,7 @@ func checkC17(c C17Case) *Failure {
 			return failf("result of a second optimizer's Update unreadable: %v", err)
 		}
 		for k := range uv {
-			if want := float64(k+1) - (lr+0.375)*2; math.Abs(uv[k]-want) > 1e-12*(math.Abs(want)+4) {
+			if want := float64(k+1) - (lr+0.375)*2; !(math.Abs(uv[k]-want) <= 1e-12*(math.Abs(want)+4)) {
 				return failf("a second optimizer with learning rate %v (the checked one has %v) moved %v to %v instead of %v", lr+0.375, lr, float64(k+1), uv[k], want)
 			}
 		}
@@ -647,7 +647,7 @@ func checkC17(c C17Case) *Failure {
 	uniform := true
 	for k := range nv {
 		want := before.V[k] - lr*before.GV[k]
-		if !lib.SameNum(nv[k], want) && math.Abs(nv[k]-want) > 1e-12*math.Max(math.Abs(before.V[k]), math.Abs(lr*before.GV[k])) {
+		if !lib.SameNum(nv[k], want) && !(math.Abs(nv[k]-want) <= 1e-12*math.Max(math.Abs(before.V[k]), math.Abs(lr*before.GV[k]))) {
 			return failf("new weight [%d] = %v, w - lr*g = %v - %v*%v = %v", k, nv[k], before.V[k], lr, before.GV[k], want)
 		}
 		if before.GV[k] != before.GV[0] {
@@ -690,7 +690,7 @@ func checkC17(c C17Case) *Failure {
 			}
 			for k := range xv {
 				want := xb.V[k] - lr*xb.GV[k]
-				if !lib.SameNum(xv[k], want) && math.Abs(xv[k]-want) > 1e-12*math.Max(math.Abs(xb.V[k]), math.Abs(lr*xb.GV[k])) {
+				if !lib.SameNum(xv[k], want) && !(math.Abs(xv[k]-want) <= 1e-12*math.Max(math.Abs(xb.V[k]), math.Abs(lr*xb.GV[k]))) {
 					return failf("Update of value %d (the optimizer updated %d other tensors before): [%d] = %v, w - lr*g = %v - %v*%v = %v", i, updated+1, k, xv[k], xb.V[k], lr, xb.GV[k], want)
 				}
 			}
@@ -731,7 +731,7 @@ func checkC17(c C17Case) *Failure {
 			if c.Second == 1 {
 				want = before.GV[k] + add
 			}
-			if math.Abs(g2[k]-want) > 1e-9*math.Max(1, math.Abs(want)) {
+			if !(math.Abs(g2[k]-want) <= 1e-9*math.Max(1, math.Abs(want))) {
 				return failf("second gradient [%d] = %v, expected %v", k, g2[k], want)
 			}
 		}
@@ -748,7 +748,7 @@ func checkC17(c C17Case) *Failure {
 		}
 		for k := range n2 {
 			want := before.V[k] - lr*g2[k]
-			if !lib.SameNum(n2[k], want) && math.Abs(n2[k]-want) > 1e-12*math.Max(math.Abs(before.V[k]), math.Abs(lr*g2[k])) {
+			if !lib.SameNum(n2[k], want) && !(math.Abs(n2[k]-want) <= 1e-12*math.Max(math.Abs(before.V[k]), math.Abs(lr*g2[k]))) {
 				return failf("second Update of the same tensor object: [%d] = %v, w - lr*g = %v - %v*%v = %v (the gradient changed since the first Update)", k, n2[k], before.V[k], lr, g2[k], want)
 			}
 		}
@@ -795,7 +795,7 @@ func checkC17(c C17Case) *Failure {
 			}
 			for j := range uv {
 				want := cur[j] - lr*gvec[j]
-				if !lib.SameNum(uv[j], want) && math.Abs(uv[j]-want) > 1e-12*math.Max(math.Abs(cur[j]), math.Abs(lr*gvec[j])) {
+				if !lib.SameNum(uv[j], want) && !(math.Abs(uv[j]-want) <= 1e-12*math.Max(math.Abs(cur[j]), math.Abs(lr*gvec[j]))) {
 					return failf("Update number %d by one optimizer: [%d] = %v, w - lr*g = %v - %v*%v = %v", it+2, j, uv[j], cur[j], lr, gvec[j], want)
 				}
 				cur[j] = want // the reference trajectory is carried independently of the library's
